@@ -395,7 +395,15 @@ fn judge(id: &str, name: &str, text: &str, deps: &[(String, String)], model: Opt
             drift.add("R5 the input parses to an AST other than the model's although the formatted text agrees", json!({"id": id, "diff": d}));
         }
     }
-    if diag1 != diag0 {
+    // Diagnostics that span several schemas are collected from HashMaps inside the parser: their order of
+    // mention is not repeatable between two parses of the SAME text.  Only a difference that persists across
+    // repeated parses of both texts is attributed to formatting.
+    let unstable = diag1 != diag0 && {
+        let again = |t: &str| -> Vec<Vec<String>> { (0..4).filter_map(|_| guarded(|| diagnostics(&parse(name, t, deps))).ok()).collect() };
+        let (a, b) = (again(text), again(&t1));
+        a.iter().any(|x| b.contains(x) || *x == diag1) || b.iter().any(|y| *y == diag0)
+    };
+    if diag1 != diag0 && !unstable {
         let only0: Vec<&String> = diag0.iter().filter(|d| !diag1.contains(d)).collect();
         let only1: Vec<&String> = diag1.iter().filter(|d| !diag0.contains(d)).collect();
         viol.add("R6 the formatted text reports a different multiset of errors and warnings",
